@@ -99,6 +99,7 @@ pub fn per_set<S: MlDsa>(seed: u64, thorough: bool, out: &mut Out) {
     let mut w = vec![0usize; S::K]; w[0] = 3; w[S::K - 1] = 2; bases.push(("hints in first and last polynomial only (empty ones between)".into(), hint_section::<S>(&mut p, &w)));
     let mut w = vec![0usize; S::K]; w[1] = 5; bases.push(("hints in the second polynomial only".into(), hint_section::<S>(&mut p, &w)));
     for t in 0..(if thorough { 60 } else { 8 }) { let tot = [om, om - 1, om / 2, 1, 2, 7][t % 6]; let w = rand_weights::<S>(&mut p, tot); bases.push((format!("random profile, weight {}", tot), hint_section::<S>(&mut p, &w))); }
+    for (name, y) in crate::fcases::hint_count_lattice::<S>(if thorough { 2 } else { 1 }) { ev_hint_unpack::<S>(out, &name, &y); }
     for (name, y) in bases.iter() {
         ev_hint_unpack::<S>(out, name, y);
         // mutation classes of fcases::hint_mutants work on whole signatures: wrap the section in a dummy one
